@@ -209,6 +209,19 @@ func (m *machine) builtin(w []string) string {
 		return finish(fn("String.prototype." + op)(m.reg(args[0]), num(args[2]), m.reg(args[1])))
 	case "replace", "replaceAll":
 		return finish(fn("String.prototype." + op)(m.reg(args[0]), m.reg(args[1]), m.reg(args[2])))
+	case "trim", "trimStart", "trimEnd":
+		return finish(fn("String.prototype." + op)(m.reg(args[0])))
+	case "raw":
+		n := atoi(args[0])
+		vals := []goja.Value{m.rt.ToValue(int64(n))}
+		for _, a := range args[1:] {
+			vals = append(vals, m.reg(a))
+		}
+		return finish(fn("(function(n){var a=[].slice.call(arguments,1); return String.raw.apply(String,[{raw:a.slice(0,n)}].concat(a.slice(n)))})")(goja.Undefined(), vals...))
+	case "splitjoinlim":
+		return finish(fn("(function(s,p,j,l){return s.split(p,l).join(j)})")(goja.Undefined(), m.reg(args[0]), m.reg(args[1]), m.reg(args[2]), num(args[3])))
+	case "splitpiecelim":
+		return finish(fn("(function(s,p,k,l){return s.split(p,l)[k]})")(goja.Undefined(), m.reg(args[0]), m.reg(args[1]), num(args[2]), num(args[3])))
 	case "splitjoin":
 		return finish(fn("(function(s,p,j){return s.split(p).join(j)})")(goja.Undefined(), m.reg(args[0]), m.reg(args[1]), m.reg(args[2])))
 	case "splitpiece":
